@@ -3,6 +3,7 @@ package parser
 import (
 	"fmt"
 	"io"
+	"strconv"
 	"strings"
 	"unicode/utf8"
 )
@@ -170,7 +171,12 @@ func serializeURL(value string) string {
 		case ')':
 			mapped = `\)`
 		default:
-			mapped = string(c)
+			if c <= 0x08 || c == 0x0B || (0x0E <= c && c <= 0x1F) || c == 0x7F {
+				// non-printable code points are not allowed in an unquoted url
+				mapped = "\\" + strconv.FormatInt(int64(c), 16) + " "
+			} else {
+				mapped = string(c)
+			}
 		}
 		chuncks.WriteString(mapped)
 	}
